@@ -464,3 +464,7 @@ def _(I, mp, k, v):
     return some(old.f[1]) if old is not None else none()
 @summary("HashMap::len")
 def _(I, mp): return len(I.deref(mp).d)
+
+
+@summary("<&str as Borrow>::borrow", "<str as Borrow>::borrow", "<&str as AsRef>::as_ref", "<str as AsRef>::as_ref", "<&str as Deref>::deref")
+def _(I, s): return as_str(I, s)
